@@ -188,6 +188,7 @@ func checkC19(c *Ctx, r *Report) {
 
 	c19ErrorsAbort(c, r)
 	c19ParserErrorDiscipline(c, r, "C19.c")
+	c19LexerErrorStops(c, r, "C19.c")
 	c19NoSwallowedPanics(c, r, "C19.c")
 	st := c.GetStaged()
 	stagedErrors(r, "C19", st)
@@ -777,4 +778,95 @@ func nilTestOperand(info *types.Info, cond ast.Expr, op token.Token) ast.Expr {
 		return unparen(be.Y)
 	}
 	return nil
+}
+
+// c19LexerErrorStops — the premise of the parser-side discipline above ("after a lexical error the lexer stops, so
+// every later token is EOF") on the lexer's side: every call of (*lexer).error in a state function ends the state
+// machine — it is the operand of the function's return (error() returns the nil state), or the next statement is
+// `return nil`. One tabled site: CommentState reports an unterminated comment inside its endless loop; that call is
+// guarded by "the rune read is eof", and at end of input no ordinary token can follow (premise re-checked: the guard
+// compares a next() result with eof). A state that reports an error and goes on lexing hands the parser an error
+// token followed by ordinary ones; where the parser does not look at a token's kind (the <tag> position of a
+// declaration) the error's text is taken as a name and the run ends as a success.
+func c19LexerErrorStops(c *Ctx, r *Report, clause string) {
+	key := "Parser/a-lexical-error-stops-the-lexer"
+	tabled := map[string]string{
+		"Parser.CommentState": "end of input inside a comment: the guard is `rune == eof`, nothing but this error can follow",
+	}
+	var bad []string
+	nStop, nTabled := 0, 0
+	for _, f := range c.AllFuncs() {
+		if f.Pkg.Types.Name() != "parser" {
+			continue
+		}
+		info := f.Pkg.TypesInfo
+		pm := parentMap(f.Decl.Body)
+		ast.Inspect(f.Decl.Body, func(n ast.Node) bool {
+			call, ok := n.(*ast.CallExpr)
+			if !ok {
+				return true
+			}
+			fn := callee(info, call)
+			if fn == nil || fn.Name() != "error" || recvNamed(fn) != "lexer" {
+				return true
+			}
+			if f.Obj == fn {
+				return true
+			}
+			// `return l.error(…)`
+			if rt, isR := pm[call].(*ast.ReturnStmt); isR && len(rt.Results) == 1 {
+				nStop++
+				return true
+			}
+			var stmt ast.Stmt
+			var list []ast.Stmt
+			for cur := ast.Node(call); cur != nil && stmt == nil; cur = pm[cur] {
+				if st, isS := cur.(ast.Stmt); isS {
+					switch par := pm[cur].(type) {
+					case *ast.BlockStmt:
+						stmt, list = st, par.List
+					case *ast.CaseClause:
+						stmt, list = st, par.Body
+					}
+				}
+			}
+			stops := false
+			for i, st := range list {
+				if st == stmt && i+1 < len(list) {
+					if rt, isR := list[i+1].(*ast.ReturnStmt); isR && len(rt.Results) == 1 {
+						if id, isI := unparen(rt.Results[0]).(*ast.Ident); isI && id.Name == "nil" {
+							stops = true
+						}
+					}
+				}
+			}
+			switch {
+			case stops:
+				nStop++
+			case tabled[f.Name] != "":
+				eofGuard := false
+				for _, a := range guardAtoms(c, f, stmt) {
+					if strings.Contains(a, "next(") && strings.Contains(a, "== -1") && !strings.HasPrefix(a, "!") {
+						eofGuard = true
+					}
+				}
+				if eofGuard {
+					nTabled++
+				} else {
+					bad = append(bad, fmt.Sprintf("%s at %s: tabled as an end-of-input report, but it is no longer guarded by `rune == eof`", f.Name, c.pos(call.Pos())))
+				}
+			default:
+				bad = append(bad, fmt.Sprintf("%s at %s reports a lexical error and goes on lexing: the parser receives ordinary tokens behind the error token, and where it does not look at a token's kind (a <tag>) the run ends as a success with the error's text in the output", f.Name, c.pos(call.Pos())))
+			}
+			return true
+		})
+	}
+	sortStrings(bad)
+	if nStop < 6 && len(bad) == 0 {
+		r.Undecided(clause, "R7 ERROR-DISCIPLINE", key, "Parser/Lex.go", fmt.Sprintf("only %d stopping error sites found (9 confirmed by hand)", nStop))
+		return
+	}
+	r.Check(len(bad) == 0, clause, "R7 ERROR-DISCIPLINE", key, "Parser/Lex.go",
+		fmt.Sprintf("%d lexer error sites end the state machine (`return nil` / `return l.error(…)`), %d tabled end-of-input site(s) with the premise re-checked", nStop, nTabled),
+		strings.Join(bad, "; "))
 }
